@@ -379,7 +379,7 @@ func (c *chunkedReader) Read(p []byte) (int, error) {
 
 // runDecR: stream decoding through a chunked reader. schedule: "e" prefix = final data with
 // io.EOF; then comma-separated sizes, the last one repeating ("1" = byte at a time).
-func runDecR(pyDict, su bool, sched string, inp []byte) string {
+func runDecR(pyDict, su bool, sched string, inp []byte, hookSpec ...string) string {
 	cr := &chunkedReader{data: append([]byte(nil), inp...)}
 	if strings.HasPrefix(sched, "e") {
 		cr.withEOF = true
@@ -405,7 +405,16 @@ func runDecR(pyDict, su bool, sched string, inp []byte) string {
 			cr.sizes = append(cr.sizes, rep)
 		}
 	}
-	d := og.NewDecoderWithConfig(cr, &og.DecoderConfig{StrictUnicode: su, PyDict: pyDict})
+	cfgR := &og.DecoderConfig{StrictUnicode: su, PyDict: pyDict}
+	if len(hookSpec) == 1 {
+		var hlog []og.Ref
+		h, err := loadHook(hookSpec[0], &hlog)
+		if err != nil {
+			return "BADCASE"
+		}
+		cfgR.PersistentLoad = h
+	}
+	d := og.NewDecoderWithConfig(cr, cfgR)
 	var out []string
 	for i := 0; i < 64; i++ {
 		v, err, p := decodeOne(d)
@@ -757,6 +766,18 @@ func handle(line string) string {
 			return "BADCASE"
 		}
 		return runCutsK(pd, su, f[2], ks, []byte(s))
+	case "decrh": // decrh <cfg> <hook> <schedule> <hex>: chunked delivery with a PersistentLoad hook, OpcodeError with position
+		if len(f) != 5 {
+			return "BADCASE"
+		}
+		classifyWithPos.Store(true)
+		defer classifyWithPos.Store(false)
+		pdh, suh, errh := parseCfg(f[1])
+		sh, errh2 := unhexOrDash(f[4])
+		if errh != nil || errh2 != nil {
+			return "BADCASE"
+		}
+		return runDecR(pdh, suh, f[3], []byte(sh), f[2])
 	case "decr", "decrp":
 		if len(f) != 4 {
 			return "BADCASE"
@@ -806,7 +827,8 @@ func handle(line string) string {
 		}
 		s, _ := runEnc(proto, f[2] == "1", f[3], v)
 		return s
-	case "enc2":
+	case "enc2", "enc2w":
+		// enc2w <proto> <su> <k> <A> ;; <B>: the same, the k-th Write of the FIRST Encode failing (the writer works again afterwards)
 		// enc2 <proto> <su> <rh> <A> ;; <B>: ONE Encoder encodes A (whatever comes of it), then B; the answer is what `enc` would
 		// print for B, with the chunks written for B only: an Encoder keeps nothing from one Encode call to the next
 		if len(f) < 7 {
@@ -835,15 +857,23 @@ func handle(line string) string {
 			return "BADCASE"
 		}
 		var log []any
-		g, err := refHook(f[3], &log)
+		rhSpec, failK := f[3], 0
+		if f[0] == "enc2w" {
+			rhSpec = "-"
+			if failK, err = strconv.Atoi(f[3]); err != nil {
+				return "BADCASE"
+			}
+		}
+		g, err := refHook(rhSpec, &log)
 		if err != nil {
 			return "BADCASE"
 		}
-		w := &chunkWriter{}
+		w := &chunkWriter{failAt: failK}
 		e := og.NewEncoderWithConfig(w, &og.EncoderConfig{Protocol: proto, PersistentRef: g, StrictUnicode: f[2] == "1"})
 		if _, p := encodeOne(e, va); p != "" {
 			return "ERR PANIC(first):" + p
 		}
+		w.failAt = 0
 		first := len(w.chunks)
 		errB, p := encodeOne(e, vb)
 		chunks := w.chunks[first:]
@@ -1059,6 +1089,17 @@ func handle(line string) string {
 			return "BADCASE"
 		}
 		return quoteCase(f[1], s)
+	case "sametype":
+		// sametype <order 2|12|21> <proto>: two DIFFERENT struct types that print alike (both are `main.Node`, declared in two
+		// functions) through one process: what is written for a value depends on the value, not on what was encoded before
+		if len(f) != 3 {
+			return "BADCASE"
+		}
+		proto, err := strconv.Atoi(f[2])
+		if err != nil {
+			return "BADCASE"
+		}
+		return sameTypeCase(f[1], proto)
 	case "eq":
 		return eqCase(f[1:])
 	}
@@ -1110,3 +1151,52 @@ func main() {
 }
 
 var _ = hex.EncodeToString
+
+func sameNode1() any {
+	type Node struct {
+		Name string `pickle:"name"`
+	}
+	return &Node{Name: "old"}
+}
+
+func sameNode2() any {
+	type Node struct {
+		Name string   `pickle:"name"`
+		Peer *UserObj `pickle:"peer"`
+		Rest []any    `pickle:"rest"`
+	}
+	return &Node{Name: "new", Peer: userObj(3), Rest: []any{userObj(4), int64(5)}}
+}
+
+func sameTypeCase(order string, proto int) string {
+	var log []any
+	g, _ := refHook("S", &log)
+	enc := func(v any) string {
+		w := &chunkWriter{}
+		e := og.NewEncoderWithConfig(w, &og.EncoderConfig{Protocol: proto, PersistentRef: g})
+		err, p := encodeOne(e, v)
+		if p != "" {
+			return "PANIC:" + strings.ReplaceAll(p, " ", "_")
+		}
+		if err != nil {
+			return "ERR:" + encClass(err)
+		}
+		hs := make([]string, len(w.chunks))
+		for i, c := range w.chunks {
+			hs[i] = hexOrDash(string(c))
+		}
+		return strings.Join(hs, ",")
+	}
+	out := []string{}
+	for _, c := range order {
+		switch c {
+		case '1':
+			out = append(out, "1="+enc(sameNode1()))
+		case '2':
+			out = append(out, "2="+enc(sameNode2()))
+		default:
+			return "BADCASE"
+		}
+	}
+	return strings.Join(out, " ")
+}
